@@ -111,7 +111,7 @@ def _report(what, text, got, want):
 def find():
     from nutils.expression_v2 import _match, _match_spaces
     ms = (_match(' + '), _match_spaces)
-    for text in _texts():
+    for text in _texts('a ({+)', 5):
         for matchers in (ms[:1], ms[1:], ms):
             try:
                 got = _sub(text)._find(*matchers)
@@ -254,4 +254,23 @@ def parser():
         print('%r (violates a documented rule) was accepted: shape %s' % (expr, got.shape))
         print('REPLAY: VIOLATION-CONFIRMED an invalid expression is silently evaluated')
         return
+    print('REPLAY: not reproduced')
+
+
+def partition_scope():
+    for text in _texts('a()[]<', 6):
+        _, i, _n = _ref_find(text, (lambda t: t[0] in _OPEN,))
+        _, j, _n = _ref_find(text[i:], (lambda t: t[0] in _CLOSE,))
+        j += i
+        want = (text[:i], text[i:i + 1], text[i + 1:j], text[j:j + 1], text[j + 1:])
+        try:
+            s = _sub(text)
+            ps = s.partition_scope()
+            got = tuple(str(p) for p in ps)
+        except Exception as e:
+            return _report('partition_scope', text, type(e).__name__, want)
+        ok = got == want and ps[0].start == s.start and ps[4].stop == s.stop and all(p.stop == q.start for p, q in zip(ps, ps[1:]))
+        ok = ok and (got[1] == '' or got[1] in _OPEN) and (got[3] == '' or got[3] in _CLOSE) and (got[1] != '' or got[2:] == ('', '', '')) and (got[3] != '' or got[4] == '')
+        if not ok:
+            return _report('partition_scope', text, got, want)
     print('REPLAY: not reproduced')
